@@ -273,30 +273,9 @@ fn ll_items(p: &LL) -> Vec<(String, String)> {
     p.items().collect()
 }
 
-/// iteration order of a HashSet / HashMap inside two leaf codecs is unspecified: the observable
-/// carries those two values with their pieces sorted (reported as an observation, see the report)
-fn normalise(id: &str, items: Vec<(String, String)>) -> Vec<(String, String)> {
-    // debug aid: VERIF_C16_RAW=1 shows the raw order
-    static RAW: OnceLock<bool> = OnceLock::new();
-    if *RAW.get_or_init(|| std::env::var("VERIF_C16_RAW").is_ok()) {
-        return items;
-    }
+/// (kept as a hook: no value needs normalising since serialize_types / serialize_env sort their output)
+fn normalise(_id: &str, items: Vec<(String, String)>) -> Vec<(String, String)> {
     items
-        .into_iter()
-        .map(|(k, v)| {
-            if id == "aptsources.Repository" && k == "Types" {
-                let mut t: Vec<&str> = v.split('\n').collect();
-                t.sort();
-                (k, t.join("\n"))
-            } else if id == "buildinfo.Buildinfo" && k == "Environment" {
-                let mut t: Vec<&str> = v.split_inclusive('\n').collect();
-                t.sort();
-                (k, t.concat())
-            } else {
-                (k, v)
-            }
-        })
-        .collect()
 }
 
 fn show_items(items: &[(String, String)]) -> String {
